@@ -188,6 +188,7 @@ package trace
 //@   holds s.mu
 //@   unchecked frame the option plumbing in trace.NewEventConfig (other module) is not under contract
 //@   requires s != nil && s.tracer != nil && s.tracer.provider != nil
+//@   modifies s.events, elemscap(s.events.queue)
 //@   assert@call evictedQueue[Event].add#1 : e.Name == name
 //@   assert@call evictedQueue[Event].add#1 : limit == 0 ==> len(e.Attributes) == 0 && e.DroppedAttributeCount == len(c.attributes)
 //@   assert@call evictedQueue[Event].add#1 : limit > 0 && len(c.attributes) > limit ==> len(e.Attributes) == limit && e.DroppedAttributeCount == len(c.attributes) - limit && (forall i in 0 .. limit : e.Attributes[i] == c.attributes[i])
@@ -481,3 +482,15 @@ package trace
 //@   unchecked frame,no-panic channels, spawned goroutine
 //@   requires bsp != nil && ctx != nil
 //@   assert@call batchSpanProcessor.enqueueBlockOnQueueFull#1 : typeis($arg2, "forceFlushSpan") && bsp.stopped.v == 0 && bsp.e != nil
+
+// Shutdown: EVERY call goes through stopOnce.Do (exactly once per call) - so a call that is not the first returns only after
+// the first one's shutdown sequence has completed (sync.Once semantics), never earlier
+//@ ghost var bspOnce int
+//@ func (bsp *batchSpanProcessor) Shutdown(ctx context.Context) (err error)
+//@   prop C01 C15
+//@   unchecked frame,no-panic channels, spawned goroutine, sync.Once body
+//@   requires bsp != nil && ctx != nil
+//@   modifies ghost bspOnce
+//@   ghost@entry : bspOnce = 0
+//@   ghost@call Once.Do#* : bspOnce = bspOnce + 1
+//@   assert@return#* : bspOnce == 1
